@@ -39,6 +39,14 @@ def pair_case(a, b, stratum, direct=True, text=True):
     return out
 
 
+def inline_case(a, b, stratum):
+    """operands written inline in the comparison (calc() results keep their flag only then)"""
+    ta, tb = G.scss(a), G.scss(b)
+    if ta is None or tb is None or ta.startswith("(") or tb.startswith("("):
+        return []
+    return [Case(f"seqin\t{G.term(a, True)}\t{G.term(b, True)}\t{G.conv_field(a, b)}\t{hx(ta)}\t{hx(tb)}", stratum + "/inline")]
+
+
 def near(x, rng):
     k = rng.random()
     if k < 0.55:
@@ -101,6 +109,19 @@ def gen(tier, rng, boost=1):
         yield from pair_case(a, b, "num-near", text=(i % (6 if quick else 10) == 0))
         if i % 5 == 0:
             yield Case(f"numeq\t{a[1]}\t{b[1]}", "number-api")
+    # --- numbers produced by calc() (not marked "calculated") against literals / each other
+    n = (400 if quick else 6000) * boost
+    yield from inline_case(("numa", bits_of(1.0), 1, 0), num(1.0, 1), "witness")
+    for i in range(n):
+        a, b = gen_num_pair(rng)
+        if float_of(a[1]) < 0 or float_of(b[1]) < 0:
+            continue
+        k = rng.random()
+        a2 = ("numa",) + a[1:] if k < 0.7 else a
+        b2 = ("numa",) + b[1:] if k > 0.4 else b
+        yield from pair_case(a2, b2, "num-calc", text=False)
+        if i % 4 == 0:
+            yield from inline_case(a2, b2, "num-calc")
     # --- strings
     for s1 in G.STR_POOL:
         for s2 in G.STR_POOL[:6] + [s1]:
@@ -211,7 +232,7 @@ def parse_pair(case):
 
 def num_info(termtext):
     t = termtext.split(" ")
-    if t[0] == "n" and len(t) == 3:
+    if t[0] in ("n", "na") and len(t) == 3:
         return float_of(int(t[1])), int(t[2])
     return None
 
@@ -219,7 +240,7 @@ def num_info(termtext):
 def has_nan(termtext):
     t = termtext.split(" ")
     for i, tok in enumerate(t):
-        if tok == "n" and i + 1 < len(t) and t[i + 1].isdigit():
+        if tok in ("n", "na") and i + 1 < len(t) and t[i + 1].isdigit():
             x = float_of(int(t[i + 1]))
             if x != x:
                 return True
@@ -262,7 +283,11 @@ def canon(impl, model):
     and an unevaluated operation are the same class"""
     if model is None or len(impl) != 12 or len(model) != 12:
         return impl, model
-    i2 = "".join(("N" if (c == "E" and k >= 6) else c) if model[k] != "?" else "?" for k, c in enumerate(impl))
+    # an error of an order operator counts as "unevaluated" only where the model says unevaluated
+    # (non-number operands through SassScript); where the model says error (numbers with incompatible
+    # units) the implementation must report an error too
+    i2 = "".join(("N" if (c == "E" and k >= 6 and model[k] == "N") else c) if model[k] != "?" else "?"
+                 for k, c in enumerate(impl))
     return i2, model
 
 
